@@ -20,19 +20,30 @@ EXPLANATION = (
     "precedence graph acyclic; (R2) autosort returns a permutation of its "
     "input: it works on a copy, the only mutations of the copy are "
     "remove(s) followed by insert(i, s) of the same s after a successful "
-    "index(s), and the insertion index is recomputed after every mutation "
-    "(no stale index across loop iterations); (R3) every value autosort "
+    "index(s), the insertion index is a position in the list being sorted "
+    "and a precursor is moved only when it is behind its step; (R3) every "
+    "value autosort "
     "returns has passed check_order, and available() is autosort of all "
     "declared identifiers; (R4) preproc.apply runs a step only if it is "
     "available (else KeyError) and its required steps are a subset of the "
     "identifiers *before* it in the list (else ValueError); (R5) "
     "check_order raises when a required, or a present optional, step comes "
-    "later.")
+    "later, and the two tests are independent of each other; (R6) the "
+    "declared graph contains precursor chains of three edges, for which a "
+    "single insertion pass provably fails (the counterexample selection is "
+    "constructed from the chain); autosort must therefore repeat its pass "
+    "with a move flag that is reset per pass, set on every move and ends "
+    "the repetition when a pass moved nothing - the returned list is then a "
+    "fixed point of the pass, i.e. no examined precursor is behind its "
+    "step.")
 NOT_DECIDED = [
-    "that autosort succeeds (does not raise from its own post-check) for "
-    "every admissible ordered selection and is idempotent - total "
-    "correctness of the insertion algorithm over the 1957 selections; "
-    "enumerating them is execution, a different technique family",
+    "that the bounded repetition of the insertion pass reaches its fixed "
+    "point within len(identifiers) passes for every admissible ordered "
+    "selection (if it did not, the final check_order raises instead of "
+    "returning an invalid order); idempotence follows from the fixed point "
+    "only together with that bound - enumerating the 1957 selections is "
+    "execution, a different technique family (findings/"
+    "repro_F23_autosort_single_pass.py is the hand-run enumeration)",
 ]
 
 
@@ -183,16 +194,6 @@ def r2_autosort_permutation(ctx):
                       f"{lv}.index(..)",
                       "the insertion index is not a position in the list "
                       "being sorted")
-            again = cfg.reach([inn.id], avoid={d.id for d in idefs},
-                              skip_labels=("exc",))
-            ctx.check(inn.id not in again, ic,
-                      f"{iv.id} recomputed before the next insertion",
-                      f"the insertion index `{iv.id}` is computed once and "
-                      "reused after the list was modified: after the first "
-                      "move the current step has shifted, the next "
-                      "precursor is inserted at a stale position (in front "
-                      "of the first) and the result violates the order "
-                      "rules")
             # the guard compares the precursor's position with it
             conds = conditions_at(ic)
             def behind(a):
@@ -419,9 +420,152 @@ def r5_check_order(ctx):
                       "for valid lists")
 
 
+def _edges(ctx):
+    steps = facts.preprocessing_steps(ctx.repo)
+    ids = [k.get("identifier") for f, k, d in steps]
+    req = {i: [] for i in ids}
+    opt = {i: [] for i in ids}
+    for f, k, d in steps:
+        me = k.get("identifier")
+        for kind, tab in (("steps_required", req), ("steps_optional", opt)):
+            v = k.get(kind)
+            if isinstance(v, list):
+                tab[me] = [x for x in v if x in ids]
+    return ids, req, opt
+
+
+def r6_fixpoint(ctx):
+    """A single insertion pass cannot sort every selection once the
+    precedence graph has a chain of three edges; the pass must be repeated
+    until nothing moves."""
+    pre = ctx.repo.mod("preproc")
+    fn = pre.func("autosort")
+    ctx.analysed(fn)
+    arg = fn.args.args[0].arg
+    rets = [r for r in walk_no_nested(fn, False) if isinstance(r, ast.Return)]
+    if len(rets) != 1 or not isinstance(rets[0].value, ast.Name):
+        raise Undecided("autosort does not return a single local list")
+    lv = rets[0].value.id
+    inserts = [c for c in calls_in(fn) if isinstance(c.func, ast.Attribute)
+               and c.func.attr == "insert" and norm(c.func.value) == lv]
+    if len(inserts) != 1:
+        raise Undecided("autosort is not an insertion sort with one move")
+    ins = inserts[0]
+    # the pass: the outermost loop over the input that contains the move
+    chain = []
+    p_ = getattr(ins, "_parent", None)
+    while p_ is not None and p_ is not fn:
+        if isinstance(p_, (ast.For, ast.While)):
+            chain.append(p_)
+        p_ = getattr(p_, "_parent", None)
+    chain.reverse()          # outermost first
+    passes = [l for l in chain if isinstance(l, ast.For)
+              and norm(l.iter) in (arg, lv, f"list({arg})")]
+    if not passes:
+        raise Undecided("autosort has no pass over its identifiers")
+    the_pass = passes[0]
+    outer = chain[:chain.index(the_pass)]
+    ids, req, opt = _edges(ctx)
+    # longest chain of precursor edges
+    memo = {}
+
+    def longest(n):
+        if n not in memo:
+            memo[n] = [n]
+            for m in req[n] + opt[n]:
+                cand = [n] + longest(m)
+                if len(cand) > len(memo[n]):
+                    memo[n] = cand
+        return memo[n]
+    best = max((longest(i) for i in ids), key=len)
+    ctx.note("longest precursor chain: " + " -> ".join(best))
+    if not outer:
+        if len(best) < 4:
+            raise Undecided("single-pass autosort with precursor chains of "
+                            "fewer than three edges")
+        found = None
+        nxt = {i: req[i] + opt[i] for i in ids}
+        for P in ids:
+            for Q in nxt[P]:
+                for R_ in nxt[Q]:
+                    for S in nxt[R_]:
+                        sel = [P, S, R_, Q]
+                        inner = {(a, b) for a in sel for b in nxt[a]
+                                 if b in sel}
+                        if len(set(sel)) == 4 and inner == {
+                                (P, Q), (Q, R_), (R_, S)} and all(
+                                set(req[a]) <= set(sel) for a in sel):
+                            found = found or (P, Q, R_, S)
+        if found is None:
+            raise Undecided("cannot construct the counterexample for the "
+                            f"chain {best}")
+        P, Q, R_, S = found
+        sel = [P, S, R_, Q]
+        best = list(found)
+        ctx.fail(the_pass, "the insertion pass is repeated until nothing "
+                 "moves",
+                 f"autosort makes a single insertion pass, but the declared "
+                 f"steps contain the precursor chain {' -> '.join(best[:4])}"
+                 f": for the admissible selection {sel} the pass moves "
+                 f"'{Q}' in front of '{P}', later moves '{R_}' in front of "
+                 f"'{Q}' - and thereby in front of its own precursor '{S}', "
+                 f"which was processed already; the result fails check_order "
+                 f"and autosort raises ValueError instead of returning a "
+                 f"valid order")
+        return
+    # the repetition: flag reset per iteration, set on every move, break
+    # (or loop exit) when it stayed false
+    rep = outer[-1]
+    moved = None
+    blk = getattr(ins, "_parent", None)
+    while blk is not None and not isinstance(blk, ast.stmt):
+        blk = getattr(blk, "_parent", None)
+    par = getattr(blk, "_parent", None)
+    sibs = []
+    for fld in ("body", "orelse"):
+        b_ = getattr(par, fld, None)
+        if isinstance(b_, list) and any(x is blk for x in b_):
+            sibs = b_
+    for st in sibs:
+        if isinstance(st, ast.Assign) and isinstance(
+                st.targets[0], ast.Name) and isinstance(
+                st.value, ast.Constant) and st.value.value is True:
+            moved = st.targets[0].id
+    ctx.check(moved is not None, ins, "every move is recorded in a flag",
+              "the repetition of the pass cannot notice that something "
+              "moved")
+    if moved is None:
+        return
+    resets = [st for st in rep.body if isinstance(st, ast.Assign)
+              and norm(st.targets[0]) == moved and isinstance(
+                  st.value, ast.Constant) and st.value.value is False]
+    pos_pass = [i for i, st in enumerate(rep.body)
+                if any(x is the_pass for x in ast.walk(st))]
+    ok = bool(resets) and bool(pos_pass) and rep.body.index(resets[0]) < \
+        pos_pass[0]
+    ctx.check(ok, rep, f"`{moved}` reset before each pass",
+              f"the flag `{moved}` is not reset before each pass: the "
+              "repetition stops too early or never")
+    stop = False
+    if isinstance(rep, ast.While) and norm(rep.test) == moved:
+        stop = True
+    for st in rep.body[pos_pass[0] + 1 if pos_pass else 0:]:
+        if isinstance(st, ast.If) and norm(st.test) in (
+                f"not {moved}",) and any(isinstance(x, ast.Break)
+                                         for x in st.body):
+            stop = True
+    ctx.check(stop, rep, "repetition ends when a whole pass moved nothing",
+              "the repetition does not end on a pass without moves: the "
+              "returned order is not a fixed point of the pass")
+    bounded = isinstance(rep, ast.For)
+    ctx.note("repetition is " + ("bounded (exhaustion is caught by the final "
+                                 "check_order)" if bounded else "unbounded"))
+
+
 RULES = [
     ("C14-R1", "requirement graph well formed and acyclic", r1_graph),
-    ("C14-R2", "autosort returns a permutation; insertion index fresh",
+    ("C14-R2", "autosort returns a permutation; moves only misplaced "
+     "precursors",
      r2_autosort_permutation),
     ("C14-R3", "autosort result passed check_order; available() = "
      "autosort(all)", r3_postcheck),
@@ -429,4 +573,6 @@ RULES = [
      r4_apply_enforces),
     ("C14-R5", "check_order raises for late required / present optional "
      "precursors", r5_check_order),
+    ("C14-R6", "autosort repeats its insertion pass until nothing moves "
+     "(precursor chains of three edges exist)", r6_fixpoint),
 ]
